@@ -1180,6 +1180,9 @@ func (r *Raft) restoreUserSnapshot(meta *SnapshotMeta, reader io.Reader) error {
 		return ErrRaftShutdown
 	}
 	if err := fsm.Error(); err != nil {
+		if err == ErrRaftShutdown {
+			return err
+		}
 		panic(fmt.Errorf("failed to restore snapshot: %v", err))
 	}
 
